@@ -183,6 +183,12 @@ def run(cx, rep):
     from rules.c01 import partial_projection_rule
     partial_projection_rule(cx, rep, "C11.4")
     # ---------------------------------------------------------------- C11.3
+    # (shared with C01.6 / C08.5) object members of an intersection that the smart constructor does NOT merge stay an
+    # AllOf of closed objects, each of which rejects the other's keys in strict mode: what decides between merging and
+    # not merging must be the stored property values and nothing else (metadata, spelling)
+    rep.rule("C11.7", "literal object members of an intersection are merged whenever their shared properties are equal (= C08.5)")
+    from rules.c08 import all_of_merge_rule
+    all_of_merge_rule(cx, rep, "C11.7")
     rep.rule("C11.5", "open-object inclusion never decides which members of a printed union are kept")
     open_inclusion_callers_rule(cx, rep, "C11.5")
     rep.rule("C11.6", "strict mode finds undeclared keys by name, never by counting (= C03.13)")
